@@ -49,6 +49,26 @@ def sweep_case(T):
         cands = [math.sin(omega * (T - x) * 1e-3 / 2) ** 2 for x in np.linspace(0, 1, 41)]
         if not (min(cands) - 1e-4 <= p <= max(cands) + 1e-4):
             out.append(("C11:rabi-oscillation", f"T={T}: P(r)={p:.6f}, sin^2(Omega t/2) for t in [T-1, T] spans [{min(cands):.6f}, {max(cands):.6f}]"))
+        # with every sample time stored ('Full'), asking for the state at a stored time returns THAT state - in particular the final one
+        if T % 9 == 0 or T in (500, 501, 1000, 1001, 2000, 2001):
+            try:
+                simf = QutipEmulator.from_sequence(seq)
+                simf.set_evaluation_times("Full")
+                rf = simf.run()
+                def ov(a, b):  # normalised overlap: neighbouring samples differ by ~2e-6 for this drive
+                    x, y = a.full().ravel(), b.full().ravel()
+                    return abs(np.vdot(x, y)) / math.sqrt(float(np.vdot(x, x).real) * float(np.vdot(y, y).real))
+
+                n = len(rf.states)
+                if abs(ov(rf.get_final_state(), rf.states[-1]) - 1) > 2e-7:
+                    near = [k for k in range(n) if abs(ov(rf.get_final_state(), rf.states[k]) - 1) < 2e-7]
+                    out.append(("C11:final-state-is-not-the-last-state:legacy", f"T={T}, 'Full': get_final_state() is the state of index {near[:2]} of {n} (times end {list(rf._sim_times[-3:])})"))
+                for k in (n - 2, n - 3, n // 2):
+                    if 0 <= k < n and abs(ov(rf.get_state(float(rf._sim_times[k])), rf.states[k]) - 1) > 2e-7:
+                        out.append(("C11:state-at-a-stored-time-is-another-state:legacy", f"T={T}, 'Full': get_state({rf._sim_times[k]}) is not states[{k}]"))
+                        break
+            except Exception as e:
+                out.append((f"C11:legacy-emulator-raises:{type(e).__name__}", f"T={T} 'Full': {e}"[:200]))
         try:
             res = QutipBackendV2(seq).run()
         except Exception as e:
